@@ -219,12 +219,16 @@ def main():
         with open(os.path.join(outdir, "dump.pkl"), "wb") as f:
             pickle.dump(D, f, protocol=4)
         print("BUILD-OK", cfg.get("name"), round(D["total_s"], 1))
+        sys.stdout.flush()
+        os._exit(0)   # ParallelMap workers (np > 1) never exit: do not wait for them
     except BaseException:
         with open(os.path.join(outdir, "error.txt"), "w") as f:
             f.write(traceback.format_exc())
         print("BUILD-FAILED", cfg.get("name"))
         traceback.print_exc()
-        sys.exit(3)
+        sys.stdout.flush()
+        sys.stderr.flush()
+        os._exit(3)
 
 
 if __name__ == "__main__":
